@@ -7,5 +7,6 @@ PROP = {
     "outside": "",
     "stubs": [],
     "assumptions": [],
-    "timeout": {"quick": 600, "thorough": 3600},
+    "timeout": {"quick": 700, "thorough": 1800},
+    "slow_first": [r"_metrics_(text|captured)_(i64|f64|seq)"],
 }
